@@ -302,6 +302,60 @@ def lattice_check(rng, out, frac=None):
     return None, None
 
 
+def pt_levels_check(rng, out, nrun):
+    """every level of a real parallel-tempered sampler (fixed and annealed ladders, hottest beta 0 or not) steps with the exact
+    Metropolis-Hastings probability at the beta that the sampler REPORTS for that level (symmetric proposals: no Hastings term)"""
+    from .. import configs as C
+    fams = [f for f in sorted(C.ALL) if f in ('normal', 'adaptive_normal', 'ss_adaptive_normal', 'at_adaptive_normal_diag', 'at_adaptive_normal')]
+    for i in range(nrun):
+        cfg = C.gen(rng, kind='family', allow_annealer=False)
+        annealed = i % 2 == 0
+        cfg.update(pt=True, ntemps=rng.choice([3, 4] if annealed else [2, 3, 4]), nchains=rng.choice([1, 2]),
+                   family=rng.choice(fams or sorted(C.ALL)), blobs=False)
+        low = rng.choice([0.05, 0.3] if annealed else [0.0, 0.05, 0.3])
+        cfg['betas'] = [1.0] + sorted([round(rng.uniform(0.35, 0.95), 3) for _ in range(cfg['ntemps'] - 2)], reverse=True) + [low]
+        if annealed:
+            # with Tmax_prior the annealer puts the hottest level at beta 0 whatever the ladder says
+            cfg['annealer'] = dict(tau=rng.choice([20, 50]), nu=rng.choice([1, 2]), tmax=(i % 4 == 0) or rng.random() < 0.5)
+        s = C.build(cfg)
+        where = {}
+        for ci, ch in enumerate(s.chains):
+            for t, lv in enumerate(ch.chains):
+                where[id(lv)] = (ch, ci, t)
+        if not all(lv.proposal_dist.symmetric for ch in s.chains for lv in ch.chains):
+            continue
+        bad = []
+        orig = Chain._acceptance_ratio
+
+        def tap(self_, logp, logl, proposal, current_logp, current_logl, current_pos):
+            acc, ar = orig(self_, logp, logl, proposal, current_logp, current_logl, current_pos)
+            if id(self_) in where and len(bad) < 2:
+                ch, ci, t = where[id(self_)]
+                b = float(ch.betas[t])
+                with numpy.errstate(all='ignore'):
+                    lr = (float(logp) + b * float(logl)) - float(current_logp) - b * float(current_logl)
+                want = 1.0 if lr > 0 else math.exp(lr)
+                out.evaluations += 1
+                if abs(float(ar) - want) > 1e-12 * max(1.0, want):
+                    bad.append(dict(chain=ci, level=t, reported_beta=b, level_beta=float(self_.beta), recorded=float(ar), exact=want,
+                                    iteration=int(self_.iteration) + 1))
+            return acc, ar
+        Chain._acceptance_ratio = tap
+        try:
+            s.start_position = C.start_position(cfg)
+            s.run(12)
+        finally:
+            Chain._acceptance_ratio = orig
+        out.count('pt_level_runs')
+        out.count('pt_level_annealed' if cfg.get('annealer') else 'pt_level_fixed')
+        for b_ in bad[:1]:
+            out.violations.append(dict(
+                what='level %d of a parallel-tempered chain (sampler reports beta %r for it; the level itself holds %r) stepped with acceptance '
+                     'probability %.12g; the exact Metropolis-Hastings value at the reported beta is %.12g (iteration %d)'
+                     % (b_['level'], b_['reported_beta'], b_['level_beta'], b_['recorded'], b_['exact'], b_['iteration']),
+                replay=dict(config=cfg, **b_)))
+
+
 def run(seed, tier):
     thorough = tier == 'thorough'
     rng = random.Random(seed * 49979687 + 1)
@@ -312,7 +366,8 @@ def run(seed, tier):
                 "on/off; every step is captured at the kernel boundary and is one Coq case for the float instance of mh_step; each "
                 "decision is also re-driven with uniforms just below/above the recorded ratio. Direct oracle: 60-digit decimal "
                 "min(1, p'L'^b q(x|x')/(p L^b q(x'|x))), forced reject, reject keeps position/stats/blob; exact transition matrices on "
-                "lattices for pi P = pi. non-trivial = non-symmetric case with 0 < ar < 1; distinct = distinct kernel inputs")
+                "lattices for pi P = pi; every level of real parallel-tempered samplers (fixed and annealed ladders) against the exact ratio at the beta the "
+                "sampler reports for it. non-trivial = non-symmetric case with 0 < ar < 1; distinct = distinct kernel inputs")
     nchains = 800 if thorough else 30
     steps_per = 25 if thorough else 14
     terms, meta = [], []
@@ -412,6 +467,7 @@ def run(seed, tier):
         what, rep = lattice_check(rng, out, frac=(i_ % 2 == 1))
         if what:
             out.violations.append(dict(what=what, replay=rep))
+    pt_levels_check(rng, out, 24 if thorough else 6)
     failing = core.run_coq_cases('C01', HEADER, terms, per_file=500)
     codes = {1: 'acceptance differs', 2: 'ratio differs', 3: 'uniform consumption differs', 4: 'NaN handling differs'}
     for f in failing[:10]:
